@@ -119,6 +119,18 @@ Definition item_elements (b : block_d) (it : item_d) : list obj :=
 Definition group_elements (b : block_d) (g : list item_d) : list obj := flat_map (item_elements b) g.
 Definition elements (b : block_d) : list obj := flat_map (group_elements b) (b_groups b).
 
+(* the nanodegree coordinates an element carries, and the bound under which the float64 result of
+   1e-9 * float64(n) is within 1e-10 degrees of n * 1e-9 (PbfFloat/CoordFloat.v: elements_coord_float_error) *)
+Definition max_coord_nano : Z := 400000000000000.
+Definition obj_coords (o : obj) : list Z :=
+  match o with
+  | ONode n => [n_lat n; n_lon n]
+  | OWay w => flat_map (fun x => [wn_lat x; wn_lon x]) (w_nodes w)
+  | ORel _ => []
+  end.
+Definition coords_small (b : block_d) : bool :=
+  forallb (fun o => forallb (fun n => Z.abs n <=? max_coord_nano) (obj_coords o)) (elements b).
+
 (* what a scanner configuration keeps *)
 Definition keeps (c : cfg) (o : obj) : bool :=
   match o with
